@@ -139,8 +139,8 @@ func checkReceipts(t interface {
 		}
 		return nil
 	}
-	for _, c := range rc.calls {
-		c.ctx = newObsCtx()
+	for i, c := range rc.calls {
+		c.ctx = newObsCtx(i%2 == 1)
 		c.done = make(chan struct{})
 		if strings.HasPrefix(c.scen, "held") {
 			c.held = make(chan struct{})
